@@ -1,5 +1,5 @@
 """C16 - cutting along singularities yields a disk with faces in bijection (SingularityCutter)."""
-import math, io, contextlib
+import math, io, os, contextlib
 from collections import defaultdict
 import numpy as np
 from hypothesis import strategies as st
@@ -15,7 +15,7 @@ RULE = ("Connected oriented triangulated surfaces built by the harness: grids, c
         "deletions (new border loops), edge flips, 1-3 splits, triangle edge splits; largest face component kept; optional jitter "
         "(un-jittered regular grids keep exact shortest-path ties; 1 small case in 12 is a 'tie-trap' torus lattice with one exact "
         "unequal-sided parallelogram between three singular vertices, where paths computed from different sources tie), optional roof-like folds (creases for the feature detector), "
-        "vertex/face relabelling; coincident positions (the vertex opposite an interior edge copied onto the other opposite "
+        "vertex/face relabelling (base bent_sheet = equilateral sheet folded by 90 degrees along a row: crease + exact ties); coincident positions (the vertex opposite an interior edge copied onto the other opposite "
         "vertex for 1-4 edges = adjacent faces with one barycentre, or the whole mesh collapsed onto 1-4 positions; the feature "
         "detector is dropped when a triangle has (near) zero area). Singularity sets: empty, one, two adjacent, k random, border only, mixed, a vertex with all its "
         "neighbours, all vertices; given as a list or as a vertex attribute (as the in-repo callers do). Cutter run without "
@@ -33,6 +33,10 @@ ASSUMPTIONS = ["input is one connected oriented manifold triangulated surface wi
                "singular vertices are pairwise distinct valid vertex indices",
                "feature detection itself (which edges are features) is C15's subject; here only its effect on the cutter's "
                "guarantees is observed; inputs with a (near) zero-area triangle are cut without a feature detector"]
+
+# set to True once scratch/fixes/C16-4-stale-singularity-tree-attribute.diff is in /repo: cut_twice then also cuts twice with
+# features under config.display_duplicate_attribute_warning = True
+STALE_TREE_ATTRIBUTE_FIXED = os.environ.get("C16_STALE_TREE_FIXED", "0") == "1"     # (env override: development aid)
 
 BIG_FACES = 1500
 SMALL_FACES = 200
@@ -110,11 +114,32 @@ def topo_summary(V, F):
 
 
 CLOSED_POLY = ["tet", "octa", "icosa", "cube", "prism", "antiprism", "bipyramid"]
-BASES16 = ["torus", "grid", "grid", "cyl_u", "cyl_v", "torus", "delaunay", "fan_closed", "fan_open", "strip", "polygon"] + CLOSED_POLY + ["icosa", "octa"]
+BASES16 = ["torus", "bent_sheet", "grid", "grid", "cyl_u", "cyl_v", "torus", "delaunay", "fan_closed", "fan_open", "strip", "polygon"] + CLOSED_POLY + ["icosa", "octa"]
+
+
+def bent_sheet(n, m, jc):
+    """sheet of equilateral triangles (rows j = 0..m, odd rows shifted by 1/2) folded by 90 degrees along row jc: a crease joining
+    two border points, with exact distance ties from the vertices next to it to the crease vertices"""
+    h = math.sqrt(3) / 2
+    V = []
+    for j in range(m + 1):
+        for i in range(n + 1):
+            x = i + 0.5 * (j % 2)
+            V.append([x, jc * h, (j - jc) * h] if j > jc else [x, j * h, 0.0])
+    idx = lambda i, j: j * (n + 1) + i
+    F = []
+    for j in range(m):
+        for i in range(n):
+            a, b, c, d = idx(i, j), idx(i + 1, j), idx(i, j + 1), idx(i + 1, j + 1)
+            F += [[a, b, c], [b, d, c]] if j % 2 == 0 else [[a, b, d], [a, d, c]]
+    return V, F
 
 
 def build_base16(name, a, b, big):
     """a, b in 0..999"""
+    if name == "bent_sheet":
+        n, m = (8 + a % 16, 8 + b % 16) if big else (2 + a % 8, 3 + b % 7)
+        return bent_sheet(n, m, 1 + (a // 16) % (m - 1))
     if name == "grid":
         return G.grid(6 + a % 21, 6 + b % 21) if big else G.grid(1 + a % 8, 1 + b % 8)
     if name == "cyl_u":
@@ -376,7 +401,10 @@ def cut_case(draw, big=False, twice=False):
     case = {"V": V, "F": F, "tags": tags, "singus": S, "mode": mode, "features": feat, "hard": hard,
             "singu_form": draw(st.sampled_from(["list", "list", "attribute", "numpy", "tuple", "list"])),
             "verbose": draw(st.booleans()), "detector_verbose": draw(st.integers(0, 3)) == 0,
-            "reads": draw(read_order())}
+            "reads": draw(read_order()),
+            # library-wide switches (mouette.config), set before the mesh is built
+            "config": {"sort_neighborhoods": draw(st.integers(0, 3)) > 0,
+                       "display_duplicate_attribute_warning": draw(st.integers(0, 2 if twice else 5)) == 0}}
     if twice:
         # a second, independent cutter on the very same mesh object
         how = draw(st.sampled_from(["other", "other", "same", "subset", "empty"]))
@@ -397,6 +425,11 @@ def cut_case(draw, big=False, twice=False):
             scale = float(np.max(np.ptp(np.array(V), axis=0))) or 1.0
             if float(ar.min()) < 1e-9 * scale * scale:
                 f2 = "none"
+        if (case["config"]["display_duplicate_attribute_warning"] and not STALE_TREE_ATTRIBUTE_FIXED
+                and feat in ("detect", "detect+hard") and f2 in ("detect", "detect+hard")):
+            # reported defect of the unchanged library (scratch/fixes/C16-4): with that switch on, a second cut WITH features of a
+            # mesh already cut WITH features reuses the 'singularity_tree' edge flags of the first cut. Not asserted until fixed.
+            f2 = "none"
         case["second"] = {"singus": [int(x) for x in S2], "features": f2, "how": how,
                           "reuse_detector": draw(st.booleans()), "verbose": draw(st.booleans()),
                           "reads": draw(read_order())}
@@ -737,6 +770,11 @@ def fn(case, ctx):
     ctx.nontrivial(genus > 0 or nS >= 2 or nloops >= 2)
     info = f"{len(F)} faces, genus {genus}, {nloops} loops"
 
+    cfg = case.get("config") or {}
+    M.config.sort_neighborhoods = bool(cfg.get("sort_neighborhoods", True))          # restored by the runner after the case
+    M.config.display_duplicate_attribute_warning = bool(cfg.get("display_duplicate_attribute_warning", False))
+    ctx.label("config:sort_neighborhoods=" + ("on" if M.config.sort_neighborhoods else "off"),
+              "config:duplicate-attribute-returns-existing=" + ("on" if M.config.display_duplicate_attribute_warning else "off"))
     hard = [tuple(e) for e in case.get("hard", [])]
     m = surface_from(V, F, E=hard or None)
     ok, fd = make_detector(ctx, M, m, feat, verbose=bool(case.get("detector_verbose")))
